@@ -13,6 +13,7 @@ Every statistic is given pointwise (`…At`, one locus / one entry) and as the a
 Dimensions (`nt` taxa, `nv` loci) are explicit arguments, as numpy shapes are.
 -/
 import PybropsModel.Np
+import PybropsModel.Model.Binary64
 
 namespace Genotype
 
@@ -91,6 +92,10 @@ def gtfreqAt (m : UMat) (i j : Nat) : α := ((1 : α) / ((m.length : Nat) : α))
 def gtfreq (ploidy nv : Nat) (m : UMat) : List (List α) :=
   (List.range (ploidy + 1)).map (fun i => (List.range nv).map (gtfreqAt m i))
 
+/-- genotype-class frequency in the division form `gtcount / ntaxa` — NOT what the code does (it multiplies by
+    the reciprocal); kept to state that this form would be exact at 0 and 1 (Props/C09 `gtfreq_div_form_exact`) -/
+def gtfreqDivAt (m : UMat) (i j : Nat) : α := ((gtcountAt m i j : Nat) : α) / ((m.length : Nat) : α)
+
 /-- mat_asformat("{0,1,2}") -/
 def fmt012 (m : UMat) : UMat := m
 /-- mat_asformat("{-1,0,1}"): `mat - 1` -/
@@ -159,6 +164,21 @@ def pfmtM101 (nt nv : Nat) (G : PMat) : UMat := fmtM101 (psum nt nv G)
 def pfmtM1m1 (nt nv : Nat) (G : PMat) : List (List α) := fmtM1m1 nv (psum nt nv G)
 
 end phased
+
+/-! ### the binary64 values the code returns: IEEE rounding (`Binary64.roundBinary64`) after every arithmetic
+    operation.  Compared bit for bit with the implementation's float64 outputs by the harness. -/
+
+def afreqF64At (ploidy : Nat) (m : UMat) (j : Nat) : Rat :=
+  Binary64.roundBinary64 (afreqAt (α := Rat) ploidy m j)
+def pafreqF64At (nt : Nat) (G : PMat) (j : Nat) : Rat :=
+  Binary64.roundBinary64 (pafreqAt (α := Rat) nt G j)
+def tafreqF64At (ploidy : Nat) (g : Int) : Rat := Binary64.roundBinary64 (tafreqAt (α := Rat) ploidy g)
+/-- `recip = 1.0 / ntaxa` (rounded), then `recip * count` (rounded) -/
+def gtfreqF64At (m : UMat) (i j : Nat) : Rat :=
+  Binary64.roundBinary64 (Binary64.roundBinary64 ((1 : Rat) / ((m.length : Nat) : Rat)) * ((gtcountAt m i j : Nat) : Rat))
+/-- `out[mask] = 1.0 - out[mask]` on an already rounded frequency -/
+def mafF64Of (p : Rat) : Rat := if (1 : Rat) / 2 < p then Binary64.roundBinary64 (1 - p) else p
+
 
 /-! ### run-length compressed populations (driver only: very large populations with few distinct rows) -/
 
